@@ -1,8 +1,1119 @@
-From Coq Require Import List ZArith Bool Lia.
+(* Proofs about Model/Supercell.v (C28; reused by C27, C29, C30).
+   Invariant of the occupancy bookkeeping, its preservation by every operation for all
+   arguments and all histories, acceptance/rejection of species, POSCAR round trip at content
+   level, refutation of the guard written in the pinned source, soundness of the executable
+   invariant checker.  No axioms. *)
+From Coq Require Import List ZArith Bool Lia Arith.
 From Onsager Require Import Model.Supercell.
 Import ListNotations.
 Local Open Scope Z_scope.
 
-(* placeholder, extended below *)
-Lemma guard_source_accepts_m2 : forall cn, 0 <= cn -> guard_source cn (-2) = false.
-Proof. intros cn H. unfold guard_source. destruct (cn <? -2) eqn:E; lia. Qed.
+(* ---------- Python subscripts ---------- *)
+Lemma pyidx_nonneg n i : 0 <= i < n -> pyidx n i = Some (Z.to_nat i).
+Proof.
+  intros H. unfold pyidx.
+  destruct (0 <=? i) eqn:E1; destruct (i <? n) eqn:E2; try lia. reflexivity.
+Qed.
+
+Lemma pyidx_high n i : 0 <= n -> n <= i -> pyidx n i = None.
+Proof.
+  intros Hn H. unfold pyidx.
+  destruct (0 <=? i) eqn:E1; destruct (i <? n) eqn:E2; try lia; cbn [andb];
+  destruct (- n <=? i) eqn:E3; destruct (i <? 0) eqn:E4; try lia; reflexivity.
+Qed.
+
+Lemma pyidx_low n i : 0 <= n -> i < - n -> pyidx n i = None.
+Proof.
+  intros Hn H. unfold pyidx.
+  destruct (0 <=? i) eqn:E1; destruct (i <? n) eqn:E2; try lia; cbn [andb];
+  destruct (- n <=? i) eqn:E3; destruct (i <? 0) eqn:E4; try lia; reflexivity.
+Qed.
+
+Lemma pyget_nonneg {A} (l : list A) i : 0 <= i -> pyget l i = nth_error l (Z.to_nat i).
+Proof.
+  intros H. unfold pyget, zlen.
+  destruct (Z_lt_ge_dec i (Z.of_nat (length l))) as [Hlt|Hge].
+  - rewrite pyidx_nonneg by lia. reflexivity.
+  - rewrite pyidx_high by lia. symmetry. apply nth_error_None. lia.
+Qed.
+
+Lemma pyset_nonneg {A} (l : list A) i v : 0 <= i < zlen l -> pyset l i v = Some (upd l (Z.to_nat i) v).
+Proof. intros H. unfold pyset. rewrite pyidx_nonneg by exact H. reflexivity. Qed.
+
+(* ---------- upd ---------- *)
+Lemma upd_length {A} (l : list A) k v : length (upd l k v) = length l.
+Proof. revert k; induction l as [|h t IH]; intros [|k]; cbn; auto. Qed.
+
+Lemma nth_error_upd {A} (l : list A) k v j :
+  nth_error (upd l k v) j = if Nat.eqb j k then (if Nat.ltb k (length l) then Some v else None) else nth_error l j.
+Proof.
+  revert k j; induction l as [|h t IH]; intros k j.
+  - destruct k, j; cbn; try reflexivity. destruct (Nat.eqb j k); reflexivity.
+  - destruct k as [|k], j as [|j]; cbn [upd nth_error Nat.eqb length]; try reflexivity.
+    rewrite IH. destruct (Nat.eqb j k); reflexivity.
+Qed.
+
+Lemma nth_error_upd_eq {A} (l : list A) k v : (k < length l)%nat -> nth_error (upd l k v) k = Some v.
+Proof. intros H. rewrite nth_error_upd, Nat.eqb_refl. apply Nat.ltb_lt in H. rewrite H. reflexivity. Qed.
+
+Lemma nth_error_upd_neq {A} (l : list A) k v j : j <> k -> nth_error (upd l k v) j = nth_error l j.
+Proof. intros H. rewrite nth_error_upd. apply Nat.eqb_neq in H. rewrite H. reflexivity. Qed.
+
+Lemma nth_upd_eq {A} (l : list A) k v d : (k < length l)%nat -> nth k (upd l k v) d = v.
+Proof. intros H. apply nth_error_nth. apply nth_error_upd_eq, H. Qed.
+
+Lemma nth_upd_neq {A} (l : list A) k v j d : j <> k -> nth j (upd l k v) d = nth j l d.
+Proof.
+  intros H. destruct (nth_error l j) eqn:E.
+  - rewrite (nth_error_nth l j d E). apply nth_error_nth. rewrite nth_error_upd_neq; auto.
+  - assert (E' := E). apply nth_error_None in E. rewrite (nth_overflow l d E).
+    apply nth_overflow. rewrite upd_length. exact E.
+Qed.
+
+Lemma nth_error_nth' {A} (l : list A) k d : (k < length l)%nat -> nth_error l k = Some (nth k l d).
+Proof. intros H. apply nth_error_nth'. exact H. Qed.
+
+(* ---------- list.index / list.pop ---------- *)
+Fixpoint remove_first (x : Z) (l : list Z) : list Z :=
+  match l with [] => [] | h :: t => if h =? x then t else h :: remove_first x t end.
+
+Lemma index_of_in x l : In x l -> exists k, index_of x l = Some k /\ remove_at k l = remove_first x l.
+Proof.
+  induction l as [|h t IH]; intros H; [destruct H|]. cbn.
+  destruct (h =? x) eqn:E.
+  - exists O. split; reflexivity.
+  - destruct H as [H|H]; [apply Z.eqb_neq in E; congruence|].
+    destruct (IH H) as [k [Hk Hr]]. exists (S k). rewrite Hk. cbn. rewrite Hr. split; reflexivity.
+Qed.
+
+Lemma index_of_none x l : ~ In x l -> index_of x l = None.
+Proof.
+  induction l as [|h t IH]; intros H; cbn; [reflexivity|].
+  destruct (h =? x) eqn:E.
+  - apply Z.eqb_eq in E. exfalso. apply H. left. exact E.
+  - rewrite IH; [reflexivity|]. intros H'. apply H. right. exact H'.
+Qed.
+
+Lemma in_remove_first x l y : NoDup l -> (In y (remove_first x l) <-> In y l /\ y <> x).
+Proof.
+  induction l as [|h t IH]; intros ND; cbn; [tauto|].
+  inversion ND as [|? ? Hnin ND']; subst.
+  destruct (h =? x) eqn:E.
+  - apply Z.eqb_eq in E. subst h. split.
+    + intros H. split; [right; exact H|]. intros ->. contradiction.
+    + intros [[H|H] Hne]; [congruence|exact H].
+  - apply Z.eqb_neq in E. cbn. rewrite (IH ND'). split.
+    + intros [H|[H Hne]]; [subst; split; [left; reflexivity|exact E]|split; [right; exact H|exact Hne]].
+    + intros [[H|H] Hne]; [left; exact H|right; split; assumption].
+Qed.
+
+Lemma in_remove_first_incl x l y : In y (remove_first x l) -> In y l.
+Proof.
+  induction l as [|h t IH]; cbn; [tauto|]. destruct (h =? x); [intros; right; assumption|].
+  intros [H|H]; [left; exact H|right; apply IH, H].
+Qed.
+
+Lemma nodup_remove_first x l : NoDup l -> NoDup (remove_first x l).
+Proof.
+  induction l as [|h t IH]; intros ND; cbn; [constructor|].
+  inversion ND as [|? ? Hnin ND']; subst. destruct (h =? x); [exact ND'|].
+  constructor; [|apply IH, ND']. intros H. apply Hnin. eapply in_remove_first_incl, H.
+Qed.
+
+Lemma nodup_app_one (l : list Z) x : NoDup l -> ~ In x l -> NoDup (l ++ [x]).
+Proof.
+  intros ND H. induction l as [|h t IH]; cbn; [constructor; [intros []|constructor]|].
+  inversion ND as [|? ? Hnin ND']; subst. constructor.
+  - rewrite in_app_iff. intros [H1|[H1|[]]]; [contradiction|]. subst. apply H. left. reflexivity.
+  - apply IH; [exact ND'|]. intros H1. apply H. right. exact H1.
+Qed.
+
+(* ---------- the invariant ---------- *)
+Definition guard_ok (g : Z -> bool) (nchem : nat) : Prop :=
+  forall c, g c = true <-> (c < -1 \/ Z.of_nat nchem <= c).
+
+Definition co_at (s : sc) (c : nat) : list Z := nth c (chemorder s) [].
+
+Record Inv (N Nchem : nat) (s : sc) : Prop := mkInv {
+  inv_len_occ : length (occ s) = N;
+  inv_len_co : length (chemorder s) = Nchem;
+  inv_nodup : forall c, (c < Nchem)%nat -> NoDup (co_at s c);
+  inv_in : forall c i, (c < Nchem)%nat ->
+             (In i (co_at s c) <-> 0 <= i /\ nth_error (occ s) (Z.to_nat i) = Some (Z.of_nat c));
+  inv_range : forall k v, nth_error (occ s) k = Some v -> -1 <= v < Z.of_nat Nchem }.
+
+Lemma guard_ok_declared nchem : guard_ok (guard_declared (Z.of_nat nchem)) nchem.
+Proof.
+  intros c. unfold guard_declared. rewrite orb_true_iff, Z.ltb_lt, Z.geb_le. tauto.
+Qed.
+
+Lemma guard_ok_false g nchem c : guard_ok g nchem -> -1 <= c < Z.of_nat nchem -> g c = false.
+Proof. intros G H. destruct (g c) eqn:E; [apply G in E; lia|reflexivity]. Qed.
+
+Lemma guard_ok_true g nchem c : guard_ok g nchem -> ~ (-1 <= c < Z.of_nat nchem) -> g c = true.
+Proof. intros G H. apply G. lia. Qed.
+
+(* the state setocc produces when it changes something *)
+Definition rem_site (ch : list (list Z)) (corig ind : Z) : list (list Z) :=
+  if corig >=? 0 then upd ch (Z.to_nat corig) (remove_first ind (nth (Z.to_nat corig) ch [])) else ch.
+Definition add_site (ch : list (list Z)) (c ind : Z) : list (list Z) :=
+  if c >=? 0 then upd ch (Z.to_nat c) (nth (Z.to_nat c) ch [] ++ [ind]) else ch.
+Definition setocc_res (s : sc) (corig ind c : Z) : sc :=
+  mkSC (upd (occ s) (Z.to_nat ind) c) (add_site (rem_site (chemorder s) corig ind) c ind).
+
+Lemma rem_site_length ch corig ind : length (rem_site ch corig ind) = length ch.
+Proof. unfold rem_site. destruct (corig >=? 0); [apply upd_length|reflexivity]. Qed.
+Lemma add_site_length ch c ind : length (add_site ch c ind) = length ch.
+Proof. unfold add_site. destruct (c >=? 0); [apply upd_length|reflexivity]. Qed.
+
+Section SetOcc.
+Variables (g : Z -> bool) (N Nchem : nat) (s : sc).
+Hypothesis G : guard_ok g Nchem.
+Hypothesis I : Inv N Nchem s.
+
+Lemma setocc_reject ind c : ~ (-1 <= c < Z.of_nat Nchem) -> setocc g s ind c = (s, IndexError).
+Proof. intros H. unfold setocc. rewrite (guard_ok_true g Nchem c G H). reflexivity. Qed.
+
+Lemma setocc_out_of_range ind c : Z.of_nat N <= ind -> setocc g s ind c = (s, IndexError).
+Proof.
+  intros H. unfold setocc. destruct (g c); [reflexivity|].
+  rewrite pyget_nonneg by lia. replace (nth_error (occ s) (Z.to_nat ind)) with (@None Z); [reflexivity|].
+  symmetry. apply nth_error_None. rewrite (inv_len_occ _ _ _ I). lia.
+Qed.
+
+Lemma setocc_same ind c :
+  0 <= ind -> -1 <= c < Z.of_nat Nchem -> nth_error (occ s) (Z.to_nat ind) = Some c -> setocc g s ind c = (s, OK).
+Proof.
+  intros H0 Hc E. unfold setocc. rewrite (guard_ok_false g Nchem c G Hc).
+  rewrite pyget_nonneg by lia. rewrite E. rewrite Z.eqb_refl. reflexivity.
+Qed.
+
+Lemma setocc_eval ind c corig :
+  0 <= ind -> -1 <= c < Z.of_nat Nchem -> nth_error (occ s) (Z.to_nat ind) = Some corig -> corig <> c ->
+  setocc g s ind c = (setocc_res s corig ind c, OK).
+Proof.
+  intros H0 Hc E Hne. unfold setocc. rewrite (guard_ok_false g Nchem c G Hc).
+  rewrite pyget_nonneg by lia. rewrite E.
+  apply Z.eqb_neq in Hne. rewrite Hne. apply Z.eqb_neq in Hne.
+  assert (Hr := inv_range _ _ _ I _ _ E).
+  assert (Hlen : (Z.to_nat ind < length (occ s))%nat) by (apply nth_error_Some; congruence).
+  assert (R : remove_site (chemorder s) corig ind = inl (rem_site (chemorder s) corig ind)).
+  { unfold remove_site, rem_site. destruct (corig >=? 0) eqn:E0; [|reflexivity].
+    apply Z.geb_le in E0. rewrite pyget_nonneg by lia.
+    assert (Hc0 : (Z.to_nat corig < Nchem)%nat) by lia.
+    rewrite (nth_error_nth' (chemorder s) (Z.to_nat corig) []) by (rewrite (inv_len_co _ _ _ I); exact Hc0).
+    assert (Hin : In ind (nth (Z.to_nat corig) (chemorder s) [])).
+    { apply (inv_in _ _ _ I _ ind Hc0). split; [exact H0|]. rewrite E. f_equal. lia. }
+    destruct (index_of_in _ _ Hin) as [k [Hk Hrm]]. rewrite Hk, Hrm. reflexivity. }
+  rewrite R. cbv zeta. unfold setocc_res.
+  rewrite pyset_nonneg by (unfold zlen; lia).
+  unfold add_site. destruct (c >=? 0) eqn:E1; [|reflexivity].
+  apply Z.geb_le in E1. rewrite pyget_nonneg by lia.
+  rewrite (nth_error_nth' _ (Z.to_nat c) []) by (rewrite rem_site_length, (inv_len_co _ _ _ I); lia).
+  reflexivity.
+Qed.
+
+End SetOcc.
+
+Lemma zgeb_false c : (c >=? 0) = false -> c < 0.
+Proof. intros H. rewrite Z.geb_leb in H. apply Z.leb_gt in H. exact H. Qed.
+
+Lemma nth_add_site ch c ind c' : (c' < length ch)%nat ->
+  nth c' (add_site ch c ind) [] = if (c >=? 0) && Nat.eqb c' (Z.to_nat c) then nth c' ch [] ++ [ind] else nth c' ch [].
+Proof.
+  intros H. unfold add_site. destruct (c >=? 0); cbn [andb]; [|reflexivity].
+  destruct (Nat.eqb c' (Z.to_nat c)) eqn:E.
+  - apply Nat.eqb_eq in E. subst c'. rewrite nth_upd_eq by exact H. reflexivity.
+  - apply Nat.eqb_neq in E. apply nth_upd_neq. exact E.
+Qed.
+
+Lemma nth_rem_site ch corig ind c' : (c' < length ch)%nat ->
+  nth c' (rem_site ch corig ind) [] =
+  if (corig >=? 0) && Nat.eqb c' (Z.to_nat corig) then remove_first ind (nth c' ch []) else nth c' ch [].
+Proof.
+  intros H. unfold rem_site. destruct (corig >=? 0); cbn [andb]; [|reflexivity].
+  destruct (Nat.eqb c' (Z.to_nat corig)) eqn:E.
+  - apply Nat.eqb_eq in E. subst c'. rewrite nth_upd_eq by exact H. reflexivity.
+  - apply Nat.eqb_neq in E. apply nth_upd_neq. exact E.
+Qed.
+
+Lemma setocc_res_inv N Nchem s ind c corig :
+  Inv N Nchem s -> 0 <= ind -> -1 <= c < Z.of_nat Nchem ->
+  nth_error (occ s) (Z.to_nat ind) = Some corig -> corig <> c ->
+  Inv N Nchem (setocc_res s corig ind c).
+Proof.
+  intros I H0 Hc E Hne.
+  assert (Hr := inv_range _ _ _ I _ _ E).
+  assert (Hlen : (Z.to_nat ind < length (occ s))%nat) by (apply nth_error_Some; congruence).
+  assert (Hco : forall c', (c' < Nchem)%nat ->
+     co_at (setocc_res s corig ind c) c' =
+       if (c >=? 0) && Nat.eqb c' (Z.to_nat c) then co_at s c' ++ [ind]
+       else if (corig >=? 0) && Nat.eqb c' (Z.to_nat corig) then remove_first ind (co_at s c')
+       else co_at s c').
+  { intros c' Hc'. unfold co_at, setocc_res. cbn [chemorder].
+    rewrite nth_add_site by (rewrite rem_site_length, (inv_len_co _ _ _ I); exact Hc').
+    rewrite nth_rem_site by (rewrite (inv_len_co _ _ _ I); exact Hc').
+    destruct ((c >=? 0) && Nat.eqb c' (Z.to_nat c)) eqn:E1; [|reflexivity].
+    destruct ((corig >=? 0) && Nat.eqb c' (Z.to_nat corig)) eqn:E2; [|reflexivity].
+    apply andb_true_iff in E1. destruct E1 as [E1 E1']. apply andb_true_iff in E2. destruct E2 as [E2 E2'].
+    apply Z.geb_le in E1. apply Z.geb_le in E2. apply Nat.eqb_eq in E1'. apply Nat.eqb_eq in E2'. lia. }
+  assert (Hocc : forall i, 0 <= i -> nth_error (occ (setocc_res s corig ind c)) (Z.to_nat i) =
+                                   if i =? ind then Some c else nth_error (occ s) (Z.to_nat i)).
+  { intros i Hi. unfold setocc_res. cbn [occ]. rewrite nth_error_upd.
+    destruct (i =? ind) eqn:Ei.
+    - apply Z.eqb_eq in Ei. subst i. rewrite Nat.eqb_refl. apply Nat.ltb_lt in Hlen. rewrite Hlen. reflexivity.
+    - apply Z.eqb_neq in Ei. replace (Nat.eqb (Z.to_nat i) (Z.to_nat ind)) with false; [reflexivity|].
+      symmetry. apply Nat.eqb_neq. lia. }
+  constructor.
+  - unfold setocc_res. cbn [occ]. rewrite upd_length. apply (inv_len_occ _ _ _ I).
+  - unfold setocc_res. cbn [chemorder]. rewrite add_site_length, rem_site_length. apply (inv_len_co _ _ _ I).
+  - intros c' Hc'. rewrite (Hco c' Hc').
+    destruct ((c >=? 0) && Nat.eqb c' (Z.to_nat c)) eqn:E1.
+    + apply andb_true_iff in E1. destruct E1 as [E1 E1']. apply Z.geb_le in E1. apply Nat.eqb_eq in E1'.
+      apply nodup_app_one; [apply (inv_nodup _ _ _ I), Hc'|].
+      intros Hin. apply (inv_in _ _ _ I c' ind Hc') in Hin. destruct Hin as [_ Hin]. rewrite E in Hin.
+      injection Hin as Hin. lia.
+    + destruct ((corig >=? 0) && Nat.eqb c' (Z.to_nat corig)); [apply nodup_remove_first|]; apply (inv_nodup _ _ _ I), Hc'.
+  - intros c' i Hc'. rewrite (Hco c' Hc').
+    destruct (Z_lt_ge_dec i 0) as [Hneg|Hpos].
+    { (* negative values never occur in the lists *)
+      split; [|intros [? _]; lia]. intros Hin. exfalso.
+      assert (Hold : In i (co_at s c') -> False) by (intros Hx; apply (inv_in _ _ _ I c' i Hc') in Hx; lia).
+      destruct ((c >=? 0) && Nat.eqb c' (Z.to_nat c)).
+      - apply in_app_iff in Hin. destruct Hin as [Hin|[Hin|[]]]; [auto|lia].
+      - destruct ((corig >=? 0) && Nat.eqb c' (Z.to_nat corig)); [apply in_remove_first_incl in Hin|]; auto. }
+    apply Z.ge_le in Hpos. rewrite (Hocc i Hpos).
+    assert (Hiff := inv_in _ _ _ I c' i Hc').
+    destruct ((c >=? 0) && Nat.eqb c' (Z.to_nat c)) eqn:E1.
+    + apply andb_true_iff in E1. destruct E1 as [E1 E1']. apply Z.geb_le in E1. apply Nat.eqb_eq in E1'.
+      rewrite in_app_iff. destruct (i =? ind) eqn:Ei.
+      * apply Z.eqb_eq in Ei. subst i. split; [intros _; split; [lia|f_equal; lia]|intros _; right; left; reflexivity].
+      * apply Z.eqb_neq in Ei. rewrite Hiff. split; [intros [Hx|[Hx|[]]]; [exact Hx|congruence]|intros Hx; left; exact Hx].
+    + destruct ((corig >=? 0) && Nat.eqb c' (Z.to_nat corig)) eqn:E2.
+      * apply andb_true_iff in E2. destruct E2 as [E2 E2']. apply Z.geb_le in E2. apply Nat.eqb_eq in E2'.
+        rewrite (in_remove_first ind _ i (inv_nodup _ _ _ I c' Hc')). rewrite Hiff.
+        destruct (i =? ind) eqn:Ei.
+        -- apply Z.eqb_eq in Ei. subst i. split; [intros [_ Hx]; congruence|].
+           intros [_ Hx]. injection Hx as Hx. exfalso.
+           apply andb_false_iff in E1. destruct E1 as [E1|E1]; [apply zgeb_false in E1; lia|].
+           apply Nat.eqb_neq in E1. lia.
+        -- apply Z.eqb_neq in Ei. tauto.
+      * rewrite Hiff. destruct (i =? ind) eqn:Ei; [|tauto].
+        apply Z.eqb_eq in Ei. subst i. rewrite E. split.
+        -- intros [_ Hx]. injection Hx as Hx. exfalso.
+           apply andb_false_iff in E2. destruct E2 as [E2|E2]; [apply zgeb_false in E2; lia|].
+           apply Nat.eqb_neq in E2. lia.
+        -- intros [_ Hx]. injection Hx as Hx. exfalso.
+           apply andb_false_iff in E1. destruct E1 as [E1|E1]; [apply zgeb_false in E1; lia|].
+           apply Nat.eqb_neq in E1. lia.
+  - intros k v Hk. unfold setocc_res in Hk. cbn [occ] in Hk. rewrite nth_error_upd in Hk.
+    destruct (Nat.eqb k (Z.to_nat ind)).
+    + destruct (Nat.ltb (Z.to_nat ind) (length (occ s))); [injection Hk as <-; exact Hc|discriminate].
+    + apply (inv_range _ _ _ I _ _ Hk).
+Qed.
+
+Lemma upd_same {A} (l : list A) k v : nth_error l k = Some v -> upd l k v = l.
+Proof.
+  revert k; induction l as [|h t IH]; intros [|k] H; cbn in *; try discriminate.
+  - injection H as ->. reflexivity.
+  - rewrite IH by exact H. reflexivity.
+Qed.
+
+(* a site index that is not one of Python's negative in-range subscripts *)
+Definition idx_dom (N : nat) (ind : Z) : Prop := 0 <= ind \/ ind < - Z.of_nat N.
+Definition declared (Nchem : nat) (c : Z) : Prop := -1 <= c < Z.of_nat Nchem.
+
+Section SetOcc2.
+Variables (g : Z -> bool) (N Nchem : nat).
+Hypothesis G : guard_ok g Nchem.
+
+Theorem setocc_accepts s ind c :
+  Inv N Nchem s -> 0 <= ind < Z.of_nat N -> declared Nchem c ->
+  exists s', setocc g s ind c = (s', OK) /\ Inv N Nchem s' /\ occ s' = upd (occ s) (Z.to_nat ind) c.
+Proof.
+  intros I Hi Hc.
+  destruct (nth_error (occ s) (Z.to_nat ind)) as [corig|] eqn:E.
+  2:{ apply nth_error_None in E. rewrite (inv_len_occ _ _ _ I) in E. lia. }
+  destruct (Z.eq_dec corig c) as [->|Hne].
+  - exists s. split; [apply (setocc_same g Nchem s G); [lia|exact Hc|exact E]|]. split; [exact I|].
+    symmetry. apply upd_same, E.
+  - exists (setocc_res s corig ind c). split; [apply (setocc_eval g N Nchem s G I); [lia|exact Hc|exact E|exact Hne]|].
+    split; [apply setocc_res_inv; [exact I|lia|exact Hc|exact E|exact Hne]|reflexivity].
+Qed.
+
+Theorem setocc_rejects s ind c : ~ declared Nchem c -> setocc g s ind c = (s, IndexError).
+Proof. intros H. unfold setocc. rewrite (guard_ok_true g Nchem c G H). reflexivity. Qed.
+
+Lemma setocc_low s ind c : Inv N Nchem s -> ind < - Z.of_nat N -> setocc g s ind c = (s, IndexError).
+Proof.
+  intros I H. unfold setocc. destruct (g c); [reflexivity|].
+  unfold pyget, zlen. rewrite (inv_len_occ _ _ _ I). rewrite pyidx_low by lia. reflexivity.
+Qed.
+
+Theorem setocc_inv s ind c : Inv N Nchem s -> idx_dom N ind -> Inv N Nchem (fst (setocc g s ind c)).
+Proof.
+  intros I [H|H].
+  - destruct (Z_lt_ge_dec ind (Z.of_nat N)) as [Hlt|Hge].
+    + destruct (Z_le_gt_dec (-1) c) as [H1|H1]; [destruct (Z_lt_ge_dec c (Z.of_nat Nchem)) as [H2|H2]|].
+      * destruct (setocc_accepts s ind c I (conj H Hlt) (conj H1 H2)) as [s' [E [I' _]]]. rewrite E. exact I'.
+      * rewrite setocc_rejects by (unfold declared; lia). exact I.
+      * rewrite setocc_rejects by (unfold declared; lia). exact I.
+    + rewrite (setocc_out_of_range g N Nchem s I) by lia. exact I.
+  - rewrite setocc_low by assumption. exact I.
+Qed.
+
+Lemma setocc_all_inv l : forall s, Inv N Nchem s -> Forall (fun p => idx_dom N (fst p)) l ->
+  Inv N Nchem (fst (setocc_all g s l)).
+Proof.
+  induction l as [|[i c] t IH]; intros s I HF; cbn [setocc_all]; [exact I|].
+  inversion HF as [|? ? Hd HF']; subst. cbn [fst] in Hd.
+  assert (I' := setocc_inv s i c I Hd).
+  destruct (setocc g s i c) as [s' o]. cbn [fst] in I'.
+  destruct o; [apply IH; assumption|exact I'|exact I'].
+Qed.
+
+Theorem fillperiodic_inv s sites c : Inv N Nchem s -> Forall (idx_dom N) sites ->
+  Inv N Nchem (fst (fillperiodic g s sites c)).
+Proof.
+  intros I HF. unfold fillperiodic. apply setocc_all_inv; [exact I|].
+  rewrite Forall_map. cbn [fst]. exact HF.
+Qed.
+
+End SetOcc2.
+
+(* ---------- __sane__ and reorder ---------- *)
+Lemma zmem_in x l : zmem x l = true <-> In x l.
+Proof.
+  unfold zmem. rewrite existsb_exists. split.
+  - intros [y [Hy E]]. apply Z.eqb_eq in E. subst. exact Hy.
+  - intros H. exists x. split; [exact H|apply Z.eqb_refl].
+Qed.
+
+Lemma check_species_true o c cl : check_species o c cl = Some true -> forall ind, In ind cl -> pyget o ind = Some c.
+Proof.
+  induction cl as [|h t IH]; cbn; intros H ind Hin; [destruct Hin|].
+  destruct (pyget o h) as [v|] eqn:E; [|discriminate].
+  destruct (v =? c) eqn:Ev; [|discriminate]. apply Z.eqb_eq in Ev. subst v.
+  destruct Hin as [<-|Hin]; [exact E|apply IH; assumption].
+Qed.
+
+Lemma check_all_true o ch : forall c0, check_all o c0 ch = Some true ->
+  forall j cl, nth_error ch j = Some cl -> forall ind, In ind cl -> pyget o ind = Some (c0 + Z.of_nat j).
+Proof.
+  induction ch as [|h t IH]; intros c0 H j cl Hj ind Hin; [destruct j; discriminate|].
+  cbn in H. destruct (check_species o c0 h) as [[|]|] eqn:E; try discriminate.
+  destruct j as [|j]; cbn in Hj.
+  - injection Hj as <-. rewrite Z.add_0_r. eapply check_species_true; eassumption.
+  - rewrite (IH (c0 + 1) H j cl Hj ind Hin). f_equal. lia.
+Qed.
+
+Lemma check_species_some o c cl : (forall ind, In ind cl -> 0 <= ind < zlen o) -> check_species o c cl <> None.
+Proof.
+  induction cl as [|h t IH]; cbn; intros H; [discriminate|].
+  assert (Hh := H h (or_introl eq_refl)).
+  rewrite pyget_nonneg by lia.
+  destruct (nth_error o (Z.to_nat h)) as [v|] eqn:E.
+  - destruct (v =? c); [apply IH; intros; apply H; right; assumption|discriminate].
+  - apply nth_error_None in E. unfold zlen in Hh. lia.
+Qed.
+
+Lemma check_all_some o ch : forall c0, (forall cl, In cl ch -> forall ind, In ind cl -> 0 <= ind < zlen o) ->
+  check_all o c0 ch <> None.
+Proof.
+  induction ch as [|h t IH]; intros c0 H; cbn; [discriminate|].
+  assert (Hs := check_species_some o c0 h (H h (or_introl eq_refl))).
+  destruct (check_species o c0 h) as [[|]|]; [|discriminate|congruence].
+  apply IH. intros cl Hcl. apply H. right. exact Hcl.
+Qed.
+
+Lemma vacant_rest_true occset o : forall i0, vacant_rest occset i0 o = true ->
+  forall k v, nth_error o k = Some v -> ~ In (i0 + Z.of_nat k) occset -> v = -1.
+Proof.
+  induction o as [|h t IH]; intros i0 H k v Hk Hn; [destruct k; discriminate|].
+  cbn in H. destruct k as [|k]; cbn in Hk.
+  - injection Hk as ->. rewrite Z.add_0_r in Hn.
+    destruct (zmem i0 occset) eqn:E; [apply zmem_in in E; contradiction|].
+    destruct (v =? -1) eqn:Ev; [apply Z.eqb_eq in Ev; exact Ev|discriminate].
+  - assert (H' : vacant_rest occset (i0 + 1) t = true).
+    { destruct (zmem i0 occset); [exact H|]. destruct (h =? -1); [exact H|discriminate]. }
+    apply (IH (i0 + 1) H' k v Hk). replace (i0 + 1 + Z.of_nat k) with (i0 + Z.of_nat (S k)) by lia. exact Hn.
+Qed.
+
+Lemma omap_some {A B} (f : A -> option B) l r : omap f l = Some r ->
+  length r = length l /\ forall y, In y r -> exists x, In x l /\ f x = Some y.
+Proof.
+  revert r; induction l as [|a t IH]; intros r H; cbn in H.
+  - injection H as <-. split; [reflexivity|intros y []].
+  - destruct (f a) as [b|] eqn:E; [|discriminate]. destruct (omap f t) as [r'|]; [|discriminate].
+    injection H as <-. destruct (IH r' eq_refl) as [L P]. split; [cbn; lia|].
+    intros y [<-|Hy]; [exists a; split; [left; reflexivity|exact E]|].
+    destruct (P y Hy) as [x [Hx Hf]]. exists x. split; [right; exact Hx|exact Hf].
+Qed.
+
+Lemma pyget_in {A} (l : list A) i v : pyget l i = Some v -> In v l.
+Proof.
+  unfold pyget. destruct (pyidx (zlen l) i); [|discriminate]. apply nth_error_In.
+Qed.
+
+Lemma reorder1_some cl cm nl : reorder1 cl cm = Some nl -> length nl = length cl /\ incl nl cl.
+Proof.
+  unfold reorder1. intros H. apply omap_some in H. destruct H as [L P]. split.
+  - rewrite L. unfold zrange. rewrite map_length, seq_length. reflexivity.
+  - intros y Hy. destruct (P y Hy) as [x [_ Hf]]. destruct (pyget cm x); [|discriminate]. eapply pyget_in, Hf.
+Qed.
+
+Lemma reorder_lists_some ch : forall m no, reorder_lists ch m = Some no ->
+  length no = Nat.min (length ch) (length m) /\
+  forall c, (c < length no)%nat -> length (nth c no []) = length (nth c ch []) /\ incl (nth c no []) (nth c ch []).
+Proof.
+  induction ch as [|cl t IH]; intros m no H.
+  - cbn in H. injection H as <-. split; [reflexivity|]. intros c Hc. cbn in Hc. lia.
+  - destruct m as [|cm m']; cbn in H.
+    + injection H as <-. split; [reflexivity|]. intros c Hc. cbn in Hc. lia.
+    + destruct (reorder1 cl cm) as [nl|] eqn:E; [|discriminate].
+      destruct (reorder_lists t m') as [r|] eqn:E2; [|discriminate]. injection H as <-.
+      destruct (IH m' r E2) as [L P]. split; [cbn; rewrite L; reflexivity|].
+      intros [|c] Hc; cbn [nth]; [apply reorder1_some in E; exact E|]. apply P. cbn in Hc. lia.
+Qed.
+
+Theorem reorder_inv N Nchem s mapping :
+  Inv N Nchem s -> (Nchem <= length mapping)%nat -> Inv N Nchem (fst (reorder mapping s)).
+Proof.
+  intros I Hm. unfold reorder.
+  destruct (reorder_lists (chemorder s) mapping) as [no|] eqn:E; [|exact I].
+  destruct (reorder_lists_some _ _ _ E) as [L P].
+  rewrite (inv_len_co _ _ _ I) in L. rewrite Nat.min_l in L by exact Hm.
+  assert (Hrange : forall c i, (c < Nchem)%nat -> In i (nth c no []) -> In i (co_at s c)).
+  { intros c i Hc Hin. rewrite <- L in Hc. apply (proj2 (P c Hc)). exact Hin. }
+  destruct (sane (mkSC (occ s) no)) as [[|]|] eqn:Es; cbn [fst]; [|exact I|].
+  2:{ exfalso. unfold sane in Es. cbn [occ chemorder] in Es.
+      assert (Hs : check_all (occ s) 0 no <> None).
+      { apply check_all_some. intros cl Hcl ind Hind.
+        destruct (In_nth_error _ _ Hcl) as [c Hc].
+        assert (Hc' : (c < Nchem)%nat) by (rewrite <- L; apply nth_error_Some; congruence).
+        assert (Hin : In ind (co_at s c)).
+        { apply Hrange; [exact Hc'|]. rewrite (nth_error_nth _ _ [] Hc). exact Hind. }
+        apply (inv_in _ _ _ I c ind Hc') in Hin. destruct Hin as [H0 Hn].
+        assert ((Z.to_nat ind < length (occ s))%nat) by (apply nth_error_Some; congruence). unfold zlen. lia. }
+      destruct (check_all (occ s) 0 no) as [[|]|]; congruence. }
+  unfold sane in Es. cbn [occ chemorder] in Es.
+  destruct (check_all (occ s) 0 no) as [[|]|] eqn:Ec; try discriminate. injection Es as Ev.
+  assert (Hback : forall c i, (c < Nchem)%nat -> In i (co_at s c) -> In i (nth c no [])).
+  { intros c i Hc Hin. apply (inv_in _ _ _ I c i Hc) in Hin. destruct Hin as [H0 Hn].
+    destruct (in_dec Z.eq_dec i (concat no)) as [Hcat|Hcat].
+    - apply in_concat in Hcat. destruct Hcat as [l [Hl Hil]].
+      destruct (In_nth_error _ _ Hl) as [c2 Hc2].
+      assert (Hc2' : (c2 < Nchem)%nat) by (rewrite <- L; apply nth_error_Some; congruence).
+      assert (Hin2 : In i (co_at s c2)).
+      { apply Hrange; [exact Hc2'|]. rewrite (nth_error_nth _ _ [] Hc2). exact Hil. }
+      apply (inv_in _ _ _ I c2 i Hc2') in Hin2. destruct Hin2 as [_ Hn2]. rewrite Hn in Hn2. injection Hn2 as Hn2.
+      assert (c2 = c) by lia. subst c2. rewrite (nth_error_nth _ _ [] Hc2). exact Hil.
+    - exfalso. assert (Hv := vacant_rest_true _ _ 0 Ev (Z.to_nat i) _ Hn).
+      replace (0 + Z.of_nat (Z.to_nat i)) with i in Hv by lia. specialize (Hv Hcat). lia. }
+  constructor; cbn [occ chemorder].
+  - apply (inv_len_occ _ _ _ I).
+  - exact L.
+  - intros c Hc. unfold co_at. cbn [chemorder].
+    apply (@NoDup_incl_NoDup Z (co_at s c)); [apply (inv_nodup _ _ _ I), Hc| |intros i; apply Hback, Hc].
+    assert (Hc' : (c < length no)%nat) by (rewrite L; exact Hc). rewrite (proj1 (P c Hc')). unfold co_at. lia.
+  - intros c i Hc. unfold co_at at 1. cbn [chemorder]. rewrite <- (inv_in _ _ _ I c i Hc).
+    split; [apply Hrange, Hc|apply Hback, Hc].
+  - apply (inv_range _ _ _ I).
+Qed.
+
+(* ---------- __imul__ ---------- *)
+Definition is_perm (N : nat) (idx : list Z) : Prop :=
+  length idx = N /\ NoDup idx /\ forall x, In x idx -> 0 <= x < Z.of_nat N.
+
+Definition pidx (idx : list Z) (i : Z) : Z := nth (Z.to_nat i) idx 0.
+
+Lemma in_zrange n x : In x (zrange n) <-> 0 <= x < Z.of_nat n.
+Proof.
+  unfold zrange. rewrite in_map_iff. split.
+  - intros [k [<- Hk]]. apply in_seq in Hk. lia.
+  - intros H. exists (Z.to_nat x). split; [lia|apply in_seq; lia].
+Qed.
+
+Lemma zrange_length n : length (zrange n) = n.
+Proof. unfold zrange. rewrite map_length, seq_length. reflexivity. Qed.
+
+Lemma perm_surj N idx j : is_perm N idx -> 0 <= j < Z.of_nat N -> exists m, (m < N)%nat /\ nth m idx 0 = j.
+Proof.
+  intros [L [ND R]] Hj.
+  assert (Hin : In j idx).
+  { apply (NoDup_length_incl ND (l' := zrange N)).
+    - rewrite zrange_length. lia.
+    - intros x Hx. apply in_zrange, R, Hx.
+    - apply in_zrange, Hj. }
+  destruct (In_nth _ _ 0 Hin) as [m [Hm E]]. exists m. split; [lia|exact E].
+Qed.
+
+Lemma perm_inj N idx a b : is_perm N idx -> (a < N)%nat -> (b < N)%nat -> nth a idx 0 = nth b idx 0 -> a = b.
+Proof. intros [L [ND R]] Ha Hb E. apply (proj1 (NoDup_nth idx 0) ND); [lia|lia|exact E]. Qed.
+
+Lemma perm_range N idx m : is_perm N idx -> (m < N)%nat -> 0 <= nth m idx 0 < Z.of_nat N.
+Proof. intros [L [ND R]] Hm. apply R, nth_In. lia. Qed.
+
+Lemma imul_occ_spec occ0 : forall idx gocc ind,
+  0 <= ind -> NoDup idx -> (forall x, In x idx -> 0 <= x < zlen gocc) ->
+  (Z.to_nat ind + length idx <= length occ0)%nat ->
+  exists g', imul_occ occ0 gocc ind idx = Some g' /\ length g' = length gocc /\
+    (forall m x, nth_error idx m = Some x -> nth_error g' (Z.to_nat x) = nth_error occ0 (Z.to_nat ind + m)) /\
+    (forall j, ~ In (Z.of_nat j) idx -> nth_error g' j = nth_error gocc j).
+Proof.
+  induction idx as [|gind t IH]; intros gocc ind H0 ND R Hlen.
+  - exists gocc. cbn. split; [reflexivity|]. split; [reflexivity|]. split; [intros [|m] x Hx; discriminate|reflexivity].
+  - cbn [imul_occ]. rewrite pyget_nonneg by exact H0.
+    destruct (nth_error occ0 (Z.to_nat ind)) as [v|] eqn:Ev.
+    2:{ apply nth_error_None in Ev. cbn [length] in Hlen. lia. }
+    assert (Hg := R gind (or_introl eq_refl)).
+    rewrite pyset_nonneg by exact Hg.
+    inversion ND as [|? ? Hnin ND']; subst.
+    destruct (IH (upd gocc (Z.to_nat gind) v) (ind + 1)) as [g' [E [L [P1 P2]]]].
+    + lia.
+    + exact ND'.
+    + intros x Hx. unfold zlen. rewrite upd_length. apply R. right. exact Hx.
+    + cbn [length] in Hlen. lia.
+    + exists g'. split; [exact E|]. split; [rewrite L; apply upd_length|]. split.
+      * intros [|m] x Hx; cbn in Hx.
+        -- injection Hx as <-. rewrite P2.
+           ++ rewrite nth_error_upd_eq by (unfold zlen in Hg; lia). rewrite Nat.add_0_r. symmetry. exact Ev.
+           ++ rewrite Z2Nat.id by lia. exact Hnin.
+        -- rewrite (P1 m x Hx). f_equal. lia.
+      * intros j Hj. rewrite P2 by (intros Hx; apply Hj; right; exact Hx).
+        apply nth_error_upd_neq. intros ->. apply Hj. left. lia.
+Qed.
+
+Lemma omap_map {A B} (f : A -> option B) (h : A -> B) l : (forall x, In x l -> f x = Some (h x)) -> omap f l = Some (map h l).
+Proof.
+  induction l as [|a t IH]; intros H; cbn; [reflexivity|].
+  rewrite (H a (or_introl eq_refl)). rewrite IH by (intros; apply H; right; assumption). reflexivity.
+Qed.
+
+Lemma nodup_map_inj (f : Z -> Z) l : NoDup l -> (forall x y, In x l -> In y l -> f x = f y -> x = y) -> NoDup (map f l).
+Proof.
+  induction l as [|a t IH]; intros ND H; cbn; [constructor|].
+  inversion ND as [|? ? Hnin ND']; subst. constructor.
+  - rewrite in_map_iff. intros [y [E Hy]]. apply Hnin.
+    rewrite (H a y (or_introl eq_refl) (or_intror Hy) (eq_sym E)). exact Hy.
+  - apply IH; [exact ND'|]. intros x y Hx Hy. apply H; right; assumption.
+Qed.
+
+Theorem imul_spec N Nchem s idx :
+  Inv N Nchem s -> is_perm N idx ->
+  exists s', imul idx s = (s', OK) /\ Inv N Nchem s' /\
+    chemorder s' = map (map (pidx idx)) (chemorder s) /\
+    (forall m, (m < N)%nat -> nth_error (occ s') (Z.to_nat (nth m idx 0)) = nth_error (occ s) m).
+Proof.
+  intros I P. assert (P' := P). destruct P' as [L [ND R]].
+  destruct (imul_occ_spec (occ s) idx (occ s) 0) as [g' [E [Lg [P1 P2]]]].
+  - lia.
+  - exact ND.
+  - intros x Hx. unfold zlen. rewrite (inv_len_occ _ _ _ I). apply R, Hx.
+  - rewrite (inv_len_occ _ _ _ I), L. cbn. lia.
+  - assert (Hget : forall cl, In cl (chemorder s) -> forall i, In i cl -> pyget idx i = Some (pidx idx i)).
+    { intros cl Hcl i Hi. destruct (In_nth_error _ _ Hcl) as [c Hc].
+      assert (Hc' : (c < Nchem)%nat) by (rewrite <- (inv_len_co _ _ _ I); apply nth_error_Some; congruence).
+      assert (Hin : In i (co_at s c)) by (unfold co_at; rewrite (nth_error_nth _ _ [] Hc); exact Hi).
+      apply (inv_in _ _ _ I c i Hc') in Hin. destruct Hin as [H0 Hn].
+      assert ((Z.to_nat i < length (occ s))%nat) by (apply nth_error_Some; congruence).
+      rewrite pyget_nonneg by exact H0. unfold pidx. apply nth_error_nth'. rewrite L, <- (inv_len_occ _ _ _ I). assumption. }
+    assert (Ech : omap (omap (pyget idx)) (chemorder s) = Some (map (map (pidx idx)) (chemorder s))).
+    { apply omap_map. intros cl Hcl. apply omap_map. apply Hget, Hcl. }
+    assert (Hocc : forall m, (m < N)%nat -> nth_error g' (Z.to_nat (nth m idx 0)) = nth_error (occ s) m).
+    { intros m Hm. rewrite (P1 m (nth m idx 0)); [reflexivity|]. apply nth_error_nth'. lia. }
+    exists (mkSC g' (map (map (pidx idx)) (chemorder s))).
+    split; [unfold imul; rewrite E, Ech; reflexivity|]. split; [|split; [reflexivity|exact Hocc]].
+    assert (Hco : forall c, co_at (mkSC g' (map (map (pidx idx)) (chemorder s))) c = map (pidx idx) (co_at s c)).
+    { intros c. unfold co_at. cbn [chemorder]. change (@nil Z) with (map (pidx idx) []) at 1. apply map_nth. }
+    constructor; cbn [occ chemorder].
+    + rewrite Lg. apply (inv_len_occ _ _ _ I).
+    + rewrite map_length. apply (inv_len_co _ _ _ I).
+    + intros c Hc. rewrite Hco. apply nodup_map_inj; [apply (inv_nodup _ _ _ I), Hc|].
+      intros x y Hx Hy Exy.
+      apply (inv_in _ _ _ I c x Hc) in Hx. apply (inv_in _ _ _ I c y Hc) in Hy.
+      destruct Hx as [Hx0 Hx]. destruct Hy as [Hy0 Hy].
+      assert ((Z.to_nat x < length (occ s))%nat) by (apply nth_error_Some; congruence).
+      assert ((Z.to_nat y < length (occ s))%nat) by (apply nth_error_Some; congruence).
+      rewrite (inv_len_occ _ _ _ I) in *.
+      assert (Z.to_nat x = Z.to_nat y) by (apply (perm_inj N idx); assumption). lia.
+    + intros c j Hc. rewrite Hco. rewrite in_map_iff. split.
+      * intros [i [<- Hi]]. apply (inv_in _ _ _ I c i Hc) in Hi. destruct Hi as [Hi0 Hi].
+        assert (Hlt : (Z.to_nat i < N)%nat) by (rewrite <- (inv_len_occ _ _ _ I); apply nth_error_Some; congruence).
+        unfold pidx. split; [apply (perm_range N idx _ P Hlt)|]. rewrite Hocc by exact Hlt. exact Hi.
+      * intros [Hj0 Hj].
+        assert (Hlt : (Z.to_nat j < N)%nat).
+        { rewrite <- (inv_len_occ _ _ _ I), <- Lg. apply nth_error_Some. congruence. }
+        destruct (perm_surj N idx j P) as [m [Hm Em]]; [lia|].
+        exists (Z.of_nat m). unfold pidx. rewrite Nat2Z.id. split; [exact Em|].
+        apply (inv_in _ _ _ I c _ Hc). split; [lia|]. rewrite Nat2Z.id. rewrite <- Hocc by exact Hm. rewrite Em. exact Hj.
+    + intros k v Hk.
+      assert (Hlt : (k < N)%nat) by (rewrite <- (inv_len_occ _ _ _ I), <- Lg; apply nth_error_Some; congruence).
+      destruct (perm_surj N idx (Z.of_nat k) P) as [m [Hm Em]]; [lia|].
+      assert (Hx := Hocc m Hm). rewrite Em, Nat2Z.id, Hk in Hx. symmetry in Hx. apply (inv_range _ _ _ I _ _ Hx).
+Qed.
+
+(* ---------- POSCAR write / read (content level) ---------- *)
+Definition clipOK (N Nchem : nat) (cl : list (list Z)) : Prop :=
+  length cl = Nchem /\ (forall c, NoDup (nth c cl [])) /\
+  (forall c c' i, In i (nth c cl []) -> In i (nth c' cl []) -> c = c') /\
+  (forall c i, In i (nth c cl []) -> 0 <= i < Z.of_nat N).
+
+Lemma inv_site_range N Nchem s c i : Inv N Nchem s -> (c < Nchem)%nat -> In i (co_at s c) -> 0 <= i < Z.of_nat N.
+Proof.
+  intros I Hc Hin. apply (inv_in _ _ _ I c i Hc) in Hin. destruct Hin as [H0 Hn].
+  assert ((Z.to_nat i < length (occ s))%nat) by (apply nth_error_Some; congruence).
+  rewrite (inv_len_occ _ _ _ I) in *. lia.
+Qed.
+
+Lemma inv_clipOK N Nchem s : Inv N Nchem s -> clipOK N Nchem (chemorder s).
+Proof.
+  intros I. split; [apply (inv_len_co _ _ _ I)|]. split; [|split].
+  - intros c. destruct (Nat.lt_ge_cases c Nchem) as [Hc|Hc]; [apply (inv_nodup _ _ _ I c Hc)|].
+    rewrite nth_overflow by (rewrite (inv_len_co _ _ _ I); exact Hc). constructor.
+  - intros c c' i H1 H2.
+    assert (Hc : (c < Nchem)%nat).
+    { destruct (Nat.lt_ge_cases c Nchem) as [Hc|Hc]; [exact Hc|]. rewrite nth_overflow in H1 by (rewrite (inv_len_co _ _ _ I); exact Hc). destruct H1. }
+    assert (Hc' : (c' < Nchem)%nat).
+    { destruct (Nat.lt_ge_cases c' Nchem) as [Hc'|Hc']; [exact Hc'|]. rewrite nth_overflow in H2 by (rewrite (inv_len_co _ _ _ I); exact Hc'). destruct H2. }
+    apply (inv_in _ _ _ I c i Hc) in H1. apply (inv_in _ _ _ I c' i Hc') in H2.
+    destruct H1 as [_ H1]. destruct H2 as [_ H2]. rewrite H1 in H2. injection H2 as H2. lia.
+  - intros c i H1.
+    assert (Hc : (c < Nchem)%nat).
+    { destruct (Nat.lt_ge_cases c Nchem) as [Hc|Hc]; [exact Hc|]. rewrite nth_overflow in H1 by (rewrite (inv_len_co _ _ _ I); exact Hc). destruct H1. }
+    eapply inv_site_range; eassumption.
+Qed.
+
+Lemma omap_id {A} (f : A -> option A) l : (forall x, In x l -> f x = Some x) -> omap f l = Some l.
+Proof. intros H. rewrite (omap_map f (fun x => x) l H). rewrite map_id. reflexivity. Qed.
+
+Theorem poscar_write_spec N Nchem s : Inv N Nchem s -> poscar_write s = Some (chemorder s).
+Proof.
+  intros I. unfold poscar_write. apply omap_id. intros cl Hcl. apply omap_id. intros i Hi.
+  destruct (In_nth_error _ _ Hcl) as [c Hc].
+  assert (Hc' : (c < Nchem)%nat) by (rewrite <- (inv_len_co _ _ _ I); apply nth_error_Some; congruence).
+  assert (Hin : In i (co_at s c)) by (unfold co_at; rewrite (nth_error_nth _ _ [] Hc); exact Hi).
+  assert (Hr := inv_site_range _ _ _ _ _ I Hc' Hin).
+  unfold zlen. rewrite (inv_len_occ _ _ _ I). rewrite pyidx_nonneg by exact Hr. cbn. f_equal. lia.
+Qed.
+
+(* two consistent states with the same ordering have the same occupation *)
+Lemma inv_occ_determined N Nchem s1 s2 :
+  Inv N Nchem s1 -> Inv N Nchem s2 -> chemorder s1 = chemorder s2 -> occ s1 = occ s2.
+Proof.
+  intros I1 I2 E.
+  assert (Hco : forall c, co_at s1 c = co_at s2 c) by (intros c; unfold co_at; rewrite E; reflexivity).
+  apply (nth_ext _ _ (-1) (-1)); [rewrite (inv_len_occ _ _ _ I1), (inv_len_occ _ _ _ I2); reflexivity|].
+  intros k Hk. rewrite (inv_len_occ _ _ _ I1) in Hk.
+  assert (E1 := nth_error_nth' (occ s1) k (-1)). rewrite (inv_len_occ _ _ _ I1) in E1. specialize (E1 Hk).
+  assert (E2 := nth_error_nth' (occ s2) k (-1)). rewrite (inv_len_occ _ _ _ I2) in E2. specialize (E2 Hk).
+  set (v1 := nth k (occ s1) (-1)) in *. set (v2 := nth k (occ s2) (-1)) in *.
+  assert (R1 := inv_range _ _ _ I1 _ _ E1). assert (R2 := inv_range _ _ _ I2 _ _ E2).
+  destruct (Z_lt_ge_dec v1 0) as [N1|P1]; destruct (Z_lt_ge_dec v2 0) as [N2|P2]; [lia| | |].
+  - exfalso. assert (Hc : (Z.to_nat v2 < Nchem)%nat) by lia.
+    assert (Hin : In (Z.of_nat k) (co_at s2 (Z.to_nat v2))).
+    { apply (inv_in _ _ _ I2 _ _ Hc). split; [lia|]. rewrite Nat2Z.id, E2. f_equal. lia. }
+    rewrite <- Hco in Hin. apply (inv_in _ _ _ I1 _ _ Hc) in Hin. destruct Hin as [_ Hin].
+    rewrite Nat2Z.id, E1 in Hin. injection Hin as Hin. lia.
+  - exfalso. assert (Hc : (Z.to_nat v1 < Nchem)%nat) by lia.
+    assert (Hin : In (Z.of_nat k) (co_at s1 (Z.to_nat v1))).
+    { apply (inv_in _ _ _ I1 _ _ Hc). split; [lia|]. rewrite Nat2Z.id, E1. f_equal. lia. }
+    rewrite Hco in Hin. apply (inv_in _ _ _ I2 _ _ Hc) in Hin. destruct Hin as [_ Hin].
+    rewrite Nat2Z.id, E2 in Hin. injection Hin as Hin. lia.
+  - assert (Hc : (Z.to_nat v1 < Nchem)%nat) by lia.
+    assert (Hin : In (Z.of_nat k) (co_at s1 (Z.to_nat v1))).
+    { apply (inv_in _ _ _ I1 _ _ Hc). split; [lia|]. rewrite Nat2Z.id, E1. f_equal. lia. }
+    rewrite Hco in Hin. apply (inv_in _ _ _ I2 _ _ Hc) in Hin. destruct Hin as [_ Hin].
+    rewrite Nat2Z.id, E2 in Hin. injection Hin as Hin. lia.
+Qed.
+
+Lemma sc_eq s1 s2 : occ s1 = occ s2 -> chemorder s1 = chemorder s2 -> s1 = s2.
+Proof. destruct s1, s2; cbn; intros -> ->; reflexivity. Qed.
+
+(* phase 1 of POSCAR_occ: every site is vacated *)
+Definition upd_call (o : list Z) (p : Z * Z) : list Z := upd o (Z.to_nat (fst p)) (snd p).
+
+Lemma setocc_all_ok g N Nchem l : guard_ok g Nchem -> forall s, Inv N Nchem s ->
+  Forall (fun p => 0 <= fst p < Z.of_nat N /\ declared Nchem (snd p)) l ->
+  exists s', setocc_all g s l = (s', OK) /\ Inv N Nchem s' /\ occ s' = fold_left upd_call l (occ s).
+Proof.
+  intros G. induction l as [|[i c] t IH]; intros s I HF.
+  - exists s. cbn. auto.
+  - inversion HF as [|? ? [Hi Hc] HF']; subst. cbn [fst snd] in Hi, Hc.
+    destruct (setocc_accepts g N Nchem G s i c I Hi Hc) as [s1 [E1 [I1 O1]]].
+    destruct (IH s1 I1 HF') as [s' [E' [I' O']]].
+    exists s'. cbn [setocc_all]. rewrite E1. split; [exact E'|]. split; [exact I'|].
+    cbn [fold_left]. unfold upd_call at 2. cbn [fst snd]. rewrite <- O1. exact O'.
+Qed.
+
+Lemma fold_upd_const v0 l : (forall p, In p l -> snd p = v0) -> forall o k v,
+  nth_error (fold_left upd_call l o) k = Some v ->
+  v = v0 \/ (nth_error o k = Some v /\ ~ In k (map (fun p => Z.to_nat (fst p)) l)).
+Proof.
+  induction l as [|p t IH]; intros H o k v Hk; cbn in *; [right; split; [exact Hk|tauto]|].
+  destruct (IH (fun q Hq => H q (or_intror Hq)) _ k v Hk) as [->|[Hn Hnin]]; [left; reflexivity|].
+  unfold upd_call in Hn. rewrite nth_error_upd in Hn.
+  destruct (Nat.eqb k (Z.to_nat (fst p))) eqn:E.
+  - destruct (Nat.ltb _ _); [|discriminate]. injection Hn as <-. left. apply H. left. reflexivity.
+  - apply Nat.eqb_neq in E. right. split; [exact Hn|]. intros [Hx|Hx]; [congruence|contradiction].
+Qed.
+
+Lemma inv_vacant_init N Nchem s : Inv N Nchem s -> (forall k v, nth_error (occ s) k = Some v -> v = -1) ->
+  s = init_sc N Nchem.
+Proof.
+  intros I H. apply sc_eq; unfold init_sc; cbn [occ chemorder].
+  - apply (nth_ext _ _ (-1) (-1)); [rewrite repeat_length; apply (inv_len_occ _ _ _ I)|].
+    intros k Hk. rewrite nth_repeat. apply (H k). apply nth_error_nth'. exact Hk.
+  - apply (nth_ext _ _ [] []); [rewrite repeat_length; apply (inv_len_co _ _ _ I)|].
+    intros c Hc. rewrite nth_repeat. rewrite (inv_len_co _ _ _ I) in Hc.
+    destruct (nth c (chemorder s) []) as [|x t] eqn:E; [reflexivity|]. exfalso.
+    assert (Hin : In x (co_at s c)) by (unfold co_at; rewrite E; left; reflexivity).
+    apply (inv_in _ _ _ I c x Hc) in Hin. destruct Hin as [_ Hin]. apply H in Hin. lia.
+Qed.
+
+Lemma vacate_spec g N Nchem s : guard_ok g Nchem -> Inv N Nchem s ->
+  setocc_all g s (map (fun n => (n, -1)) (zrange (length (occ s)))) = (init_sc N Nchem, OK).
+Proof.
+  intros G I. rewrite (inv_len_occ _ _ _ I).
+  destruct (setocc_all_ok g N Nchem (map (fun n => (n, -1)) (zrange N)) G s I) as [s' [E [I' O]]].
+  - rewrite Forall_map. apply Forall_forall. intros n Hn. apply in_zrange in Hn. cbn [fst snd].
+    split; [exact Hn|]. unfold declared. lia.
+  - rewrite E. f_equal. apply inv_vacant_init; [exact I'|].
+    intros k v Hk. rewrite O in Hk.
+    assert (Hall : forall p, In p (map (fun n : Z => (n, -1)) (zrange N)) -> snd p = -1).
+    { intros p Hp. apply in_map_iff in Hp. destruct Hp as [n [<- _]]. reflexivity. }
+    destruct (fold_upd_const (-1) _ Hall _ _ _ Hk) as [->|[Hn Hnin]]; [reflexivity|].
+    exfalso. apply Hnin. rewrite map_map. cbn [fst]. apply in_map_iff.
+    assert (Hlt : (k < N)%nat).
+    { assert (Hl : length (occ s') = N) by apply (inv_len_occ _ _ _ I'). rewrite O in Hl. rewrite <- Hl. apply nth_error_Some. congruence. }
+    exists (Z.of_nat k). split; [apply Nat2Z.id|]. apply in_zrange. lia.
+Qed.
+
+(* phase 2 of POSCAR_occ: the listed sites are occupied species by species, in file order *)
+Lemma setocc_vacant_eval g s i c :
+  g c = false -> 0 <= c -> 0 <= i -> nth_error (occ s) (Z.to_nat i) = Some (-1) ->
+  (Z.to_nat c < length (chemorder s))%nat ->
+  setocc g s i c = (mkSC (upd (occ s) (Z.to_nat i) c)
+                         (upd (chemorder s) (Z.to_nat c) (nth (Z.to_nat c) (chemorder s) [] ++ [i])), OK).
+Proof.
+  intros Hg Hc Hi Hv Hl. unfold setocc. rewrite Hg. rewrite pyget_nonneg by exact Hi. rewrite Hv.
+  replace (-1 =? c) with false by (symmetry; apply Z.eqb_neq; lia).
+  unfold remove_site. replace (-1 >=? 0) with false by reflexivity. cbv zeta.
+  replace (c >=? 0) with true by (symmetry; apply Z.geb_le; lia).
+  rewrite pyget_nonneg by exact Hc. rewrite (nth_error_nth' _ _ [] Hl).
+  assert ((Z.to_nat i < length (occ s))%nat) by (apply nth_error_Some; congruence).
+  rewrite pyset_nonneg by (unfold zlen; lia). reflexivity.
+Qed.
+
+Definition calls_for (c : nat) (l : list (Z * Z)) : list Z :=
+  map fst (filter (fun p => snd p =? Z.of_nat c) l).
+
+Lemma fill_calls g N Nchem : guard_ok g Nchem -> forall l s,
+  length (occ s) = N -> length (chemorder s) = Nchem ->
+  NoDup (map fst l) ->
+  (forall p, In p l -> 0 <= fst p /\ nth_error (occ s) (Z.to_nat (fst p)) = Some (-1) /\ 0 <= snd p < Z.of_nat Nchem) ->
+  exists s', setocc_all g s l = (s', OK) /\ length (chemorder s') = Nchem /\
+    forall c, (c < Nchem)%nat -> nth c (chemorder s') [] = nth c (chemorder s) [] ++ calls_for c l.
+Proof.
+  intros G. induction l as [|[i c0] t IH]; intros s Lo Lc ND H.
+  - exists s. cbn. split; [reflexivity|]. split; [exact Lc|]. intros c _. rewrite app_nil_r. reflexivity.
+  - destruct (H (i, c0) (or_introl eq_refl)) as [Hi [Hv Hc0]]. cbn [fst snd] in Hi, Hv, Hc0.
+    cbn [map fst] in ND. apply NoDup_cons_iff in ND. destruct ND as [Hnin ND'].
+    assert (E1 := setocc_vacant_eval g s i c0 (guard_ok_false g Nchem c0 G ltac:(lia)) ltac:(lia) Hi Hv ltac:(lia)).
+    set (s1 := mkSC (upd (occ s) (Z.to_nat i) c0) (upd (chemorder s) (Z.to_nat c0) (nth (Z.to_nat c0) (chemorder s) [] ++ [i]))) in *.
+    destruct (IH s1) as [s' [E' [L' P']]].
+    + unfold s1. cbn [occ]. rewrite upd_length. exact Lo.
+    + unfold s1. cbn [chemorder]. rewrite upd_length. exact Lc.
+    + exact ND'.
+    + intros p Hp. destruct (H p (or_intror Hp)) as [Hp0 [Hpv Hpc]]. split; [exact Hp0|]. split; [|exact Hpc].
+      unfold s1. cbn [occ]. rewrite nth_error_upd_neq; [exact Hpv|].
+      intros Eq. apply Hnin. apply in_map_iff. exists p. split; [lia|exact Hp].
+    + exists s'. cbn [setocc_all]. rewrite E1. split; [exact E'|]. split; [exact L'|].
+      intros c Hc. rewrite (P' c Hc). unfold s1. cbn [chemorder]. unfold calls_for. cbn [filter snd].
+      destruct (c0 =? Z.of_nat c) eqn:Ec.
+      * apply Z.eqb_eq in Ec. subst c0. rewrite Nat2Z.id. rewrite nth_upd_eq by lia.
+        cbn [map fst]. rewrite <- app_assoc. reflexivity.
+      * apply Z.eqb_neq in Ec. rewrite nth_upd_neq by lia. reflexivity.
+Qed.
+
+Definition rcalls (a : nat) (content : list (list Z)) : list (Z * Z) :=
+  flat_map (fun p => map (fun i => (i, fst p)) (snd p)) (combine (map Z.of_nat (seq a (length content))) content).
+
+Lemma read_calls_rcalls content : read_calls content = rcalls 0 content.
+Proof. reflexivity. Qed.
+
+Lemma filter_tag (a : Z) (c : nat) (cl : list Z) :
+  map fst (filter (fun p : Z * Z => snd p =? Z.of_nat c) (map (fun i => (i, a)) cl)) = if a =? Z.of_nat c then cl else [].
+Proof.
+  induction cl as [|h t IH]; cbn; [destruct (a =? Z.of_nat c); reflexivity|].
+  destruct (a =? Z.of_nat c) eqn:E; cbn; rewrite IH; reflexivity.
+Qed.
+
+Lemma calls_for_rcalls c content : forall a,
+  calls_for c (rcalls a content) = if Nat.leb a c then nth (c - a) content [] else [].
+Proof.
+  induction content as [|cl t IH]; intros a.
+  - unfold rcalls, calls_for. cbn. destruct (Nat.leb a c); [destruct (c - a)%nat; reflexivity|reflexivity].
+  - unfold rcalls, calls_for in *. cbn [length seq map combine flat_map fst snd].
+    rewrite filter_app, map_app. rewrite filter_tag. specialize (IH (S a)).
+    change (flat_map _ _) with (flat_map (fun p : Z * list Z => map (fun i : Z => (i, fst p)) (snd p))
+       (combine (map Z.of_nat (seq (S a) (length t))) t)) in IH. rewrite IH.
+    destruct (Z.of_nat a =? Z.of_nat c) eqn:E.
+    + apply Z.eqb_eq in E. assert (a = c) by lia. subst a. rewrite Nat.leb_refl, Nat.sub_diag.
+      replace (Nat.leb (S c) c) with false by (symmetry; apply Nat.leb_gt; lia). cbn [nth]. apply app_nil_r.
+    + apply Z.eqb_neq in E. cbn [app]. destruct (Nat.leb a c) eqn:El.
+      * apply Nat.leb_le in El. replace (Nat.leb (S a) c) with true by (symmetry; apply Nat.leb_le; lia).
+        replace (c - a)%nat with (S (c - S a)) by lia. reflexivity.
+      * apply Nat.leb_gt in El. replace (Nat.leb (S a) c) with false by (symmetry; apply Nat.leb_gt; lia). reflexivity.
+Qed.
+
+Lemma rcalls_sites content : forall a, map fst (rcalls a content) = concat content.
+Proof.
+  induction content as [|cl t IH]; intros a; [reflexivity|].
+  unfold rcalls in *. cbn [length seq map combine flat_map fst snd concat]. rewrite map_app, map_map. cbn [fst].
+  rewrite map_id. f_equal. apply (IH (S a)).
+Qed.
+
+Lemma rcalls_in content : forall a p, In p (rcalls a content) ->
+  exists c, (a <= c)%nat /\ snd p = Z.of_nat c /\ In (fst p) (nth (c - a) content []) /\ (c - a < length content)%nat.
+Proof.
+  induction content as [|cl t IH]; intros a p H; [destruct H|].
+  unfold rcalls in *. cbn [length seq map combine flat_map fst snd] in H. apply in_app_iff in H. destruct H as [H|H].
+  - apply in_map_iff in H. destruct H as [i [<- Hi]]. exists a. cbn [fst snd length]. rewrite Nat.sub_diag. cbn [nth].
+    split; [lia|]. split; [reflexivity|]. split; [exact Hi|lia].
+  - destruct (IH (S a) p H) as [c [Hc [Hs [Hin Hl]]]]. exists c. split; [lia|]. split; [exact Hs|].
+    replace (c - a)%nat with (S (c - S a)) by lia. cbn [nth length]. split; [exact Hin|lia].
+Qed.
+
+Lemma nodup_app (a b : list Z) : NoDup a -> NoDup b -> (forall x, In x a -> ~ In x b) -> NoDup (a ++ b).
+Proof.
+  induction a as [|h t IH]; intros Na Nb H; cbn; [exact Nb|].
+  inversion Na as [|? ? Hnin Na']; subst. constructor.
+  - rewrite in_app_iff. intros [Hx|Hx]; [contradiction|]. apply (H h (or_introl eq_refl) Hx).
+  - apply IH; [exact Na'|exact Nb|]. intros x Hx. apply H. right. exact Hx.
+Qed.
+
+Lemma nodup_concat (ll : list (list Z)) :
+  (forall c, NoDup (nth c ll [])) ->
+  (forall c c' i, In i (nth c ll []) -> In i (nth c' ll []) -> c = c') -> NoDup (concat ll).
+Proof.
+  induction ll as [|h t IH]; intros H1 H2; cbn; [constructor|].
+  apply nodup_app.
+  - apply (H1 O).
+  - apply IH; [intros c; apply (H1 (S c))|]. intros c c' i Hi Hi'. assert (S c = S c') by (apply (H2 (S c) (S c') i); assumption). lia.
+  - intros x Hx Hcat. apply in_concat in Hcat. destruct Hcat as [l [Hl Hxl]].
+    destruct (In_nth _ _ [] Hl) as [c [Hc Ec]]. assert (O = S c); [|discriminate].
+    apply (H2 O (S c) x); [exact Hx|cbn [nth]; rewrite Ec; exact Hxl].
+Qed.
+
+Theorem poscar_read_spec g N Nchem s0 cl :
+  guard_ok g Nchem -> Inv N Nchem s0 -> clipOK N Nchem cl ->
+  exists s', poscar_read g cl s0 = (s', OK) /\ Inv N Nchem s' /\ chemorder s' = cl.
+Proof.
+  intros G I [Lc [C1 [C2 C3]]]. unfold poscar_read. rewrite (vacate_spec g N Nchem s0 G I).
+  rewrite read_calls_rcalls.
+  assert (Iinit : Inv N Nchem (init_sc N Nchem)).
+  { assert (X := vacate_spec g N Nchem s0 G I).
+    assert (Y := setocc_all_inv g N Nchem G (map (fun n => (n, -1)) (zrange (length (occ s0)))) s0 I).
+    rewrite X in Y. apply Y. rewrite Forall_map. apply Forall_forall. intros n Hn. apply in_zrange in Hn. left. cbn. lia. }
+  destruct (fill_calls g N Nchem G (rcalls 0 cl) (init_sc N Nchem)) as [s' [E [L P]]].
+  - apply (inv_len_occ _ _ _ Iinit).
+  - apply (inv_len_co _ _ _ Iinit).
+  - rewrite rcalls_sites. apply nodup_concat; assumption.
+  - intros p Hp. destruct (rcalls_in _ _ _ Hp) as [c [_ [Hs [Hin Hl]]]]. rewrite Nat.sub_0_r in Hin, Hl.
+    assert (Hr := C3 c _ Hin). split; [lia|]. split; [|rewrite Hs; lia].
+    unfold init_sc. cbn [occ]. rewrite (nth_error_nth' _ _ (-1)) by (rewrite repeat_length; lia). rewrite nth_repeat. reflexivity.
+  - exists s'. split; [exact E|].
+    assert (Ech : chemorder s' = cl).
+    { apply (nth_ext _ _ [] []); [rewrite L, Lc; reflexivity|]. intros c Hc. rewrite L in Hc. rewrite (P c Hc).
+      unfold init_sc. cbn [chemorder]. rewrite nth_repeat. cbn [app]. rewrite calls_for_rcalls. cbn. rewrite Nat.sub_0_r. reflexivity. }
+    split; [|exact Ech].
+    assert (Y := setocc_all_inv g N Nchem G (rcalls 0 cl) (init_sc N Nchem) Iinit). rewrite E in Y. apply Y.
+    apply Forall_forall. intros p Hp. destruct (rcalls_in _ _ _ Hp) as [c [_ [_ [Hin _]]]]. rewrite Nat.sub_0_r in Hin.
+    left. apply (C3 c _ Hin).
+Qed.
+
+(* writing a POSCAR and reading it back (into any consistent supercell) reproduces occupation and ordering *)
+Theorem poscar_roundtrip g N Nchem s s0 :
+  guard_ok g Nchem -> Inv N Nchem s -> Inv N Nchem s0 ->
+  exists content, poscar_write s = Some content /\ poscar_read g content s0 = (s, OK).
+Proof.
+  intros G I I0. exists (chemorder s). split; [apply (poscar_write_spec N Nchem), I|].
+  destruct (poscar_read_spec g N Nchem s0 (chemorder s) G I0 (inv_clipOK _ _ _ I)) as [s' [E [I' Ec]]].
+  rewrite E. f_equal. apply sc_eq; [|exact Ec]. apply (inv_occ_determined N Nchem); assumption.
+Qed.
+
+(* ---------- the machine and all histories ---------- *)
+Definition MInv (N Nchem : nat) (m : mach) : Prop :=
+  Inv N Nchem (cur m) /\ Inv N Nchem (saved m) /\ clipOK N Nchem (clip m).
+
+(* arguments for which the property speaks: no negative Python subscripts as site indices, one mapping list
+   per species, site maps that are permutations.  Species, mappings' contents, sites out of range: arbitrary. *)
+Definition op_dom (N Nchem : nat) (o : op) : Prop :=
+  match o with
+  | OSet i _ => idx_dom N i
+  | OFill sites _ => Forall (idx_dom N) sites
+  | OReorder mp => (Nchem <= length mp)%nat
+  | OImul idx => is_perm N idx
+  | _ => True
+  end.
+
+Lemma init_sc_inv N Nchem : Inv N Nchem (init_sc N Nchem).
+Proof.
+  unfold init_sc. constructor; cbn [occ chemorder].
+  - apply repeat_length.
+  - apply repeat_length.
+  - intros c _. unfold co_at. cbn [chemorder]. rewrite nth_repeat. constructor.
+  - intros c i _. unfold co_at. cbn [chemorder]. rewrite nth_repeat. split; [intros []|].
+    intros [_ H]. apply nth_error_In, repeat_spec in H. lia.
+  - intros k v H. apply nth_error_In, repeat_spec in H. lia.
+Qed.
+
+Lemma init_minv N Nchem : MInv N Nchem (init N Nchem).
+Proof.
+  unfold init, MInv. cbn [cur saved clip]. split; [apply init_sc_inv|]. split; [apply init_sc_inv|].
+  apply (inv_clipOK N Nchem (init_sc N Nchem)), init_sc_inv.
+Qed.
+
+Theorem step_inv g N Nchem m o :
+  guard_ok g Nchem -> MInv N Nchem m -> op_dom N Nchem o -> MInv N Nchem (fst (step g m o)).
+Proof.
+  intros G [Ic [Is Cl]] D. destruct o; cbn [step fst snd cur saved clip op_dom] in *.
+  - split; [|split; assumption]. apply (setocc_inv g N Nchem G); assumption.
+  - split; [|split; assumption]. apply (fillperiodic_inv g N Nchem G); assumption.
+  - split; [|split]; assumption.
+  - split; [|split; assumption]. apply reorder_inv; assumption.
+  - split; [|split; assumption]. destruct (imul_spec N Nchem (cur m) idx Ic D) as [s' [E [I' _]]]. rewrite E. exact I'.
+  - split; [|split]; assumption.
+  - split; [|split]; assumption.
+  - rewrite (poscar_write_spec N Nchem _ Ic). cbn [fst cur saved clip]. split; [|split]; try assumption.
+    apply inv_clipOK, Ic.
+  - split; [|split; assumption].
+    destruct (poscar_read_spec g N Nchem (cur m) (clip m) G Ic Cl) as [s' [E [I' _]]]. rewrite E. exact I'.
+Qed.
+
+Theorem history_inv g N Nchem : guard_ok g Nchem -> forall ops m,
+  MInv N Nchem m -> Forall (op_dom N Nchem) ops -> MInv N Nchem (run g m ops).
+Proof.
+  intros G. induction ops as [|o t IH]; intros m I HF; cbn [run]; [exact I|].
+  inversion HF as [|? ? Ho HF']; subst. apply IH; [|exact HF']. apply step_inv; assumption.
+Qed.
+
+(* at every point of every history: declared species are accepted, all others rejected with nothing changed *)
+Theorem history_species g N Nchem ops i c :
+  guard_ok g Nchem -> Forall (op_dom N Nchem) ops -> 0 <= i < Z.of_nat N ->
+  let s := cur (run g (init N Nchem) ops) in
+  (declared Nchem c -> exists s', setocc g s i c = (s', OK) /\ Inv N Nchem s' /\
+                                  nth_error (occ s') (Z.to_nat i) = Some c /\
+                                  forall k, k <> Z.to_nat i -> nth_error (occ s') k = nth_error (occ s) k) /\
+  (~ declared Nchem c -> setocc g s i c = (s, IndexError)).
+Proof.
+  intros G HF Hi s.
+  assert (I : Inv N Nchem s) by (apply (history_inv g N Nchem G ops (init N Nchem) (init_minv N Nchem) HF)).
+  split.
+  - intros Hc. destruct (setocc_accepts g N Nchem G s i c I Hi Hc) as [s' [E [I' O]]].
+    exists s'. split; [exact E|]. split; [exact I'|]. rewrite O. split.
+    + apply nth_error_upd_eq. rewrite (inv_len_occ _ _ _ I). lia.
+    + intros k Hk. apply nth_error_upd_neq, Hk.
+  - intros Hc. apply (setocc_rejects g Nchem G), Hc.
+Qed.
+
+(* ---------- the guard as written in the pinned source ---------- *)
+Lemma guard_source_not_ok (cn ns : nat) : ~ guard_ok (guard_source (Z.of_nat cn)) (cn + ns).
+Proof.
+  intros G. assert (H : guard_source (Z.of_nat cn) (-2) = true) by (apply G; lia).
+  unfold guard_source in H. apply orb_true_iff in H. destruct H as [H|H]; [apply Z.ltb_lt in H; lia|].
+  apply Z.gtb_lt in H. lia.
+Qed.
+
+Theorem source_guard_refuted :
+  (forall cn ns : nat, ~ guard_ok (guard_source (Z.of_nat cn)) (cn + ns)) /\
+  (* an undeclared species is accepted and the bookkeeping becomes inconsistent *)
+  (exists ops, Forall (op_dom 2 1) ops /\ ~ MInv 2 1 (run (guard_source 1) (init 2 1) ops) /\
+               snd (step (guard_source 1) (init 2 1) (OSet 0 (-2))) = OK /\ ~ declared 1 (-2)) /\
+  (* a declared species (second solute) is rejected *)
+  (declared 3 2 /\ step (guard_source 1) (init 2 3) (OSet 0 2) = (init 2 3, IndexError)) /\
+  (* an undeclared species is rejected only after the site has been unlisted *)
+  (exists ops, Forall (op_dom 2 1) ops /\ ~ declared 1 1 /\
+               snd (step (guard_source 1) (run (guard_source 1) (init 2 1) ops) (OSet 0 1)) = IndexError /\
+               ~ MInv 2 1 (fst (step (guard_source 1) (run (guard_source 1) (init 2 1) ops) (OSet 0 1)))).
+Proof.
+  split; [exact guard_source_not_ok|]. split; [|split].
+  - exists [OSet 0 (-2)]. split; [repeat constructor; cbn; lia|]. split; [|split; [reflexivity|unfold declared; lia]].
+    intros [I _]. assert (H := inv_range _ _ _ I O (-2) eq_refl). lia.
+  - split; [unfold declared; lia|reflexivity].
+  - exists [OSet 0 0]. split; [repeat constructor; cbn; lia|]. split; [unfold declared; lia|]. split; [reflexivity|].
+    intros [I _]. assert (H := proj2 (inv_in _ _ _ I O 0 ltac:(lia)) (conj (Z.le_refl 0) eq_refl)). destruct H.
+Qed.
+
+(* ---------- the executable invariant checker run on the implementation's states ---------- *)
+Lemma nodupb_sound l : nodupb l = true -> NoDup l.
+Proof.
+  induction l as [|h t IH]; cbn; intros H; [constructor|]. apply andb_true_iff in H. destruct H as [H1 H2].
+  constructor; [|apply IH, H2]. intros Hin. apply zmem_in in Hin. rewrite Hin in H1. discriminate.
+Qed.
+
+Lemma enumerate_in {A} (l : list A) : forall a k x, nth_error l k = Some x ->
+  In (Z.of_nat (a + k), x) (combine (map Z.of_nat (seq a (length l))) l).
+Proof.
+  induction l as [|h t IH]; intros a k x H; [destruct k; discriminate|].
+  cbn [length seq map combine]. destruct k as [|k]; cbn in H.
+  - injection H as ->. left. rewrite Nat.add_0_r. reflexivity.
+  - right. replace (a + S k)%nat with (S a + k)%nat by lia. apply IH, H.
+Qed.
+
+Theorem invb_sound N Nchem s : invb N Nchem s = true -> Inv N Nchem s.
+Proof.
+  unfold invb. intros H. repeat (apply andb_true_iff in H; destruct H as [H ?]).
+  apply Nat.eqb_eq in H. rename H into Lo. rename H0 into Hl. rename H1 into Hs. rename H2 into Lc.
+  apply Nat.eqb_eq in Lc. rewrite forallb_forall in Hs. unfold listedb in Hl. rewrite forallb_forall in Hl.
+  assert (Hsp : forall c, (c < Nchem)%nat -> species_okb (occ s) (Z.of_nat c) (co_at s c) = true).
+  { intros c Hc. apply (Hs (Z.of_nat c, co_at s c)). unfold enumerate, zrange.
+    apply (enumerate_in (chemorder s) 0 c). unfold co_at. apply nth_error_nth'. lia. }
+  constructor; try assumption.
+  - intros c Hc. specialize (Hsp c Hc). unfold species_okb in Hsp. apply andb_true_iff in Hsp. apply nodupb_sound, Hsp.
+  - intros c i Hc. split.
+    + intros Hin. specialize (Hsp c Hc). unfold species_okb in Hsp. apply andb_true_iff in Hsp. destruct Hsp as [_ Hf].
+      rewrite forallb_forall in Hf. specialize (Hf i Hin). repeat (apply andb_true_iff in Hf; destruct Hf as [Hf ?]).
+      apply Z.leb_le in Hf. apply Z.ltb_lt in H0. apply Z.eqb_eq in H. unfold zlen in H0. split; [exact Hf|].
+      rewrite (nth_error_nth' _ _ (-2)) by lia. f_equal. exact H.
+    + intros [H0 Hn]. assert (Hp := Hl (i, Z.of_nat c)). cbv beta iota in Hp.
+      assert (Hin : In (i, Z.of_nat c) (enumerate (occ s))).
+      { unfold enumerate, zrange. replace i with (Z.of_nat (0 + Z.to_nat i)) by lia. apply enumerate_in, Hn. }
+      specialize (Hp Hin). repeat (apply andb_true_iff in Hp; destruct Hp as [Hp ?]).
+      apply orb_true_iff in H. destruct H as [H|H]; [apply Z.eqb_eq in H; lia|].
+      apply zmem_in in H. rewrite Nat2Z.id in H. exact H.
+  - intros k v Hk. assert (Hp := Hl (Z.of_nat k, v)). cbv beta iota in Hp.
+    assert (Hin : In (Z.of_nat k, v) (enumerate (occ s))) by (unfold enumerate, zrange; apply (enumerate_in (occ s) 0 k), Hk).
+    specialize (Hp Hin). repeat (apply andb_true_iff in Hp; destruct Hp as [Hp ?]).
+    apply Z.leb_le in Hp. apply Z.ltb_lt in H0. unfold zlen in H0. lia.
+Qed.
+
+(* ---------- non-vacuity: concrete instances ---------- *)
+Example ex_history :
+  let g := guard_declared 3 in
+  let m := run g (init 4 3) [OFill [0; 2] 0; OSet 1 2; OSet 3 2; OSet 0 1; OReorder [[0]; [0]; [1; 0]];
+                             OImul [1; 0; 3; 2]; OCopy; OWrite; OSet 3 (-1); OSet 7 0; OSet 0 5; ORead] in
+  cur m = mkSC [2; 1; 2; 0] [[3]; [1]; [2; 0]] /\ minvb 4 3 m = true /\
+  Forall (op_dom 4 3) [OFill [0; 2] 0; OSet 1 2; OReorder [[0]; [0]; [1; 0]]; OImul [1; 0; 3; 2]].
+Proof.
+  cbv zeta. split; [vm_compute; reflexivity|]. split; [vm_compute; reflexivity|].
+  apply Forall_cons; [|apply Forall_cons; [|apply Forall_cons; [|apply Forall_cons; [|apply Forall_nil]]]].
+  - cbn. apply Forall_cons; [left; lia|apply Forall_cons; [left; lia|apply Forall_nil]].
+  - cbn. left. lia.
+  - cbn. lia.
+  - cbn. unfold is_perm. split; [reflexivity|]. split.
+    + repeat (apply NoDup_cons; [cbn; intuition lia|]). apply NoDup_nil.
+    + intros x Hx. cbn in Hx. intuition lia.
+Qed.
+
+Example ex_roundtrip :
+  let s := mkSC [2; 1; 2; 0] [[3]; [1]; [2; 0]] in
+  invb 4 3 s = true /\ poscar_write s = Some [[3]; [1]; [2; 0]] /\
+  poscar_read (guard_declared 3) [[3]; [1]; [2; 0]] (mkSC [0; 0; -1; 1] [[1; 0]; [3]; []]) = (s, OK).
+Proof. vm_compute. repeat split; reflexivity. Qed.
+
+Example ex_reorder_rejects :
+  reorder [[0; 0]] (mkSC [0; 0] [[0; 1]]) = (mkSC [0; 0] [[0; 1]], ValueError) /\
+  reorder [[1]] (mkSC [0; 0] [[0; 1]]) = (mkSC [0; 0] [[0; 1]], IndexError).
+Proof. vm_compute. split; reflexivity. Qed.
